@@ -174,6 +174,15 @@ typedef ikos::congruence_domain<znum, varname_t> dom_t;
 #error "unknown DOM"
 #endif
 
+// base numerical domain of a lifting (C12: the lifting never reports looser bounds than its base)
+#if DOM == 9 || DOM == 11 || DOM == 13 || DOM == 14 || DOM == 16 || DOM == 18 || DOM == 20 || DOM == 21 || DOM == 12
+typedef itv_dom_t base_t;
+#define DOM_HAS_BASE 1
+#elif DOM == 17
+typedef split_dbm_domain<znum, varname_t, DBM_impl::BigNumDefaultParams<znum, DBM_impl::GraphRep::ss>> base_t;
+#define DOM_HAS_BASE 1
+#endif
+
 inline dom_t make_top() {
 #ifdef DOM_WRAPPED
   wrapped_t w;
